@@ -1,0 +1,2 @@
+// Package verifhooks is empty unless the build tag "verif" is set; see callbackqueue.go.
+package verifhooks
